@@ -1,3 +1,4 @@
+@staticmethod
 def spec(self, attr):
     del self.updates_[attr].pos
     del self.updates_[attr].neg
